@@ -240,13 +240,13 @@ Proof.
   destruct (String.eqb a k) eqn:E; [apply String.eqb_eq in E; subst; contradiction|reflexivity].
 Qed.
 
-Lemma naming_names S snake vs : NoDup (map v_name vs) ->
-  map (fun v => naming S snake vs (v_name v)) vs =
-  assign (reserved_names S) (map (base_name snake) (map v_name vs)).
+Lemma naming_names S snake extra vs : NoDup (map v_name vs) ->
+  map (fun v => naming S snake extra vs (v_name v)) vs =
+  assign (reserved_names S ++ extra) (map (base_name snake) (map v_name vs)).
 Proof.
   intro Hnd. unfold naming.
   pose proof (map_assoc_combine (base_name snake) (map v_name vs)
-                (assign (reserved_names S) (map (base_name snake) (map v_name vs))) Hnd) as H.
+                (assign (reserved_names S ++ extra) (map (base_name snake) (map v_name vs))) Hnd) as H.
   etransitivity; [|apply H; rewrite assign_length, !map_length; reflexivity].
   symmetry. apply (map_map v_name).
 Qed.
